@@ -19,6 +19,7 @@ import copy as _copy
 import random as _random
 import zlib
 import hashlib
+import functools
 
 from sim import backends as B
 from sim.values import enc, dec, show
@@ -150,6 +151,55 @@ class Cnt(int):
         return (Cnt, (int(self),))
 
 
+def r_m2(x, y=2):
+    return _res('m2(%r,%r)' % (_R(x), _R(y)))
+
+
+def r_c2(x, y=2):
+    return _res('c2(%r,%r)' % (_R(x), _R(y)))
+
+
+def r_p2(x, y=2):
+    return _res('p2(%r,%r)' % (_R(x), _R(y)))
+
+
+class _Obj(object):
+    """other kinds of callable: a bound method and a callable instance"""
+    def m2(self, x, y=2):
+        _enter('m2', show((x, y)))
+        return r_m2(x, y)
+
+    def __call__(self, x, y=2):
+        _enter('c2', show((x, y)))
+        return r_c2(x, y)
+
+
+def _g3(z, x, y=2):
+    _enter('p2', show((x, y)))
+    return r_p2(x, y)
+
+
+_OBJ = _Obj()
+_M2 = _OBJ.m2
+_P2 = functools.partial(_g3, 10)
+
+
+def r_r1(n):
+    a, b = 0, 1
+    for _ in range(n):
+        a, b = b, a + b
+    return a
+
+
+def r1(n):
+    """re-entrant: the function calls its own memoized wrapper, so the cache changes while a call is in flight"""
+    _enter('r1', show((n,)))
+    if n < 2:
+        return n
+    g = _Cur.world.f
+    return g(n - 1) + g(n - 2)
+
+
 def r_b1(*a):
     return max(int(x) if isinstance(x, int) else x for x in a) if len(a) > 1 else max(*a)
 
@@ -186,9 +236,11 @@ def f6(x, y=2, *a, **kw):
 
 FUNCS = {'f1': (f1, r_f1), 'f2': (f2, r_f2), 'f3': (f3, r_f3),
          'f4': (f4, r_f4), 'f5': (f5, r_f5), 'f6': (f6, r_f6), 'f7': (f7, r_f7), 'f8': (f8, r_f8), 'f9': (f9, r_f9),
-         'b1': (max, r_b1)}          # a builtin without introspectable signature, always called with two Cnt
+         'm2': (_M2, r_m2), 'c2': (_OBJ, r_c2), 'p2': (_P2, r_p2),
+         'b1': (max, r_b1), 'r1': (r1, r_r1)}          # a builtin without introspectable signature, always called with two Cnt
 # signature twins: f7 is spelled like f2, f8 like f4 (they differ in the default value only)
-SHAPE = {'f7': 'f2', 'f8': 'f4'}
+SHAPE = {'f7': 'f2', 'f8': 'f4', 'm2': 'f2', 'c2': 'f2', 'p2': 'f2'}
+DFLT = {'f2': 2, 'f6': 2, 'f4': 1, 'f7': 7.26, 'f8': 7.26, 'm2': 2, 'c2': 2, 'p2': 2}
 DEFAULTS = {'f2': ('y', 2), 'f6': ('y', 2), 'f4': ('k', 1), 'f7': ('y', 7.26), 'f8': ('k', 7.26)}
 VARIADIC = ('f3', 'f6', 'b1')
 
@@ -242,6 +294,8 @@ def make_keymap(km):
     if kind == 'pickle':
         if arg is not None:
             kw['serializer'] = arg
+        if km.get('proto') is not None:
+            kw['protocol'] = km['proto']       # an option that changes the key bytes
         return picklemap(**kw)
     return hashmap(algorithm=arg, **kw)
 
@@ -262,7 +316,10 @@ def gen_config(rng, prop, tier):
     if wide:
         maxsize = rng.choice([30, 40])      # LFU evicts max(2, maxsize//10) entries: >2 only from 30 up
     purge = rng.chance(0.3) and prop != 'C06'
-    fn = rng.weighted([(3, 'f1'), (4, 'f2'), (2, 'f3'), (2, 'f4'), (2, 'f5'), (2, 'f6'), (1, 'f7'), (1, 'f8'), (1, 'f9'), (1, 'b1')])
+    fn = rng.weighted([(3, 'f1'), (4, 'f2'), (2, 'f3'), (2, 'f4'), (2, 'f5'), (2, 'f6'), (1, 'f7'), (1, 'f8'), (1, 'f9'), (1, 'b1'),
+                       (1, 'm2'), (1, 'c2'), (1, 'p2')])
+    if prop in ('C01', 'C05', 'C15') and not wide and rng.chance(0.06):
+        fn = 'r1'        # a memoized recursive function (re-entrant calls)
     if wide:
         fn = rng.choice(['f2', 'f6', 'f9', 'f2'])       # enough distinct bound-argument combinations
     # backend
@@ -313,6 +370,8 @@ def gen_config(rng, prop, tier):
        and not (label in ('file-src', 'dir-src') and km['kind'] == 'raw'):
         if fn in ('f2', 'f6', 'f7') and rng.chance(0.5):
             cfg['ignore'] = rng.choice(['y', 1, ['y'], ['x']])
+        elif fn in ('m2', 'c2', 'p2') and rng.chance(0.5):
+            cfg['ignore'] = rng.choice(['y', ['y'], ['x']])
         elif fn == 'f9' and rng.chance(0.6):
             cfg['ignore'] = rng.choice([['x', 'y'], 'y', ['y', 'z'], ['z', 'x'], [0, 1]])
         elif fn in ('f3',) and rng.chance(0.5):
@@ -335,12 +394,14 @@ KW_NAMES = ['p', 'q']
 
 def logical_call(rng, fn, pool, tuples_ok):
     """one logical call as bound values; spelled separately"""
+    if fn == 'r1':
+        return {'x': rng.randint(0, 14)}
     if fn == 'b1':
         ints = [p for p in pool if isinstance(p, int) and not isinstance(p, bool) and abs(p) < 2 ** 31] or [0, 1, 2]
         return {'x': rng.choice(ints), 'a': [rng.choice(ints)]}
     x = rng.choice(pool)
     c = {'x': x}
-    dflt = DEFAULTS.get(fn, (None, None))[1]
+    dflt = DFLT.get(fn)
     fn = SHAPE.get(fn, fn)
     if fn in ('f2', 'f6') and rng.chance(0.6):
         c['y'] = rng.choice(pool[:4] + [dflt])
@@ -364,6 +425,8 @@ def spell(rng, fn, c):
     """choose one of the spellings Python binds identically"""
     args, kw = [], []
     fn = SHAPE.get(fn, fn)
+    if fn == 'r1':
+        return {'op': 'call', 'a': [c['x']], 'kw': []}
     if fn == 'f1':
         if rng.chance(0.25):
             kw.append(['x', c['x']])
@@ -498,6 +561,8 @@ def generate(rng, prop, tier):
         mix = [(w, k) for (w, k) in mix if k != 'peer_call']
     if fn not in DEFAULTS:
         mix = [(w, k) for (w, k) in mix if k != 'sibling_call']
+    if fn == 'r1':
+        mix = [(w, k) for (w, k) in mix if k not in ('bad', 'rcall', 'peer_call', 'clone', 'codeco_call')]
     n = rng.randint(5, 60)
     if rng.chance(0.08) or (prop == 'C06' and rng.chance(0.35)):
         n = rng.randint(60, 400 if tier == 'thorough' else 200)
@@ -779,7 +844,7 @@ class Oracle(object):
                     raise Mismatch('wrong-result', 'call %s returned %r, the function returns %r'
                                    % (show_op(op), val, exp))
         # ---- C02: evaluations
-        if nev > 1:
+        if nev > 1 and w.cfg['fn'] != 'r1':
             if prop in ('C02', 'C16', 'C15'):
                 raise Mismatch('double-evaluation', 'call %s evaluated the function %d times' % (show_op(op), nev))
         if prop == 'C02' and nev and hashable and not bad:
@@ -803,7 +868,7 @@ class Oracle(object):
             if maxsize is not None and n1 > max(maxsize, n0):
                 raise Mismatch('capacity', 'call %s: %d resident before, %d after, maxsize %r'
                                % (show_op(op), n0, n1, maxsize))
-            if algo not in ('no', 'inf') and w.cfg['purge'] and before['on'] and hashable \
+            if algo not in ('no', 'inf') and w.cfg['purge'] and before['on'] and hashable and w.cfg['fn'] != 'r1' \
                and not resident0 and not bad and n0 + 1 > maxsize and n1 != 0:
                 raise Mismatch('purge-not-emptied', 'purge=True, archived, call %s overflowed (%d resident, maxsize %d) '
                                'but %d entries stayed in memory' % (show_op(op), n0, maxsize, n1))
@@ -879,7 +944,17 @@ class Oracle(object):
                 self.stats[2] += 1
                 kind = 'load'
             self.bump('call-' + kind)
-        if prop == 'C15':
+        if prop == 'C15' and w.cfg['fn'] == 'r1' and tag == 'ok':
+            # re-entrant function: every nested call of the wrapper is a completed call too. Ground truth from the
+            # evaluation log: misses = evaluations; completed calls = 1 + 2 per evaluation with n >= 2
+            ev = len(evals)
+            completed = 1 + 2 * sum(1 for (_, canon) in evals if canon not in (show((0,)), show((1,))))
+            b, a = tuple(before['info']), tuple(after['info'])
+            if a[1] - b[1] != ev or sum(a[:3]) - sum(b[:3]) != completed or a[3] != maxsize or a[4] != len(mem1):
+                raise Mismatch('stats', 'recursive call %s: %d evaluations and %d completed calls (nested ones included), '
+                               'but info() went from %r to %r' % (show_op(op), ev, completed, b, a))
+            self.stats = list(a[:3])
+        elif prop == 'C15':
             exp = (self.stats[0], self.stats[1], self.stats[2], maxsize, len(mem1))
             if tuple(after['info']) != exp:
                 raise Mismatch('stats', 'after call %s info() is %r, the history gives %r (hit, miss, load, maxsize, size)'
@@ -1210,7 +1285,7 @@ def run_world(case, prop, root, name, skip, fs, clock, probes, faults, log):
                or (after['arch'] != snap['arch']):
                 raise Mismatch('clone-differs', 'after the dill round trip: %s, original: %s'
                                % (obs_show(after), obs_show(snap)))
-            if g.__wrapped__ is not w.fn and getattr(g.__wrapped__, '__name__', None) != w.fn.__name__:
+            if g.__wrapped__ is not w.fn and type(g.__wrapped__) is not type(w.fn):
                 raise Mismatch('clone-differs', '__wrapped__ differs after the round trip')
             if repr(g.__map__()) != repr(f.__map__()) or g.__mask__() != f.__mask__():
                 raise Mismatch('clone-differs', 'keymap/ignore differ after the round trip')
